@@ -54,7 +54,17 @@ Proof.
   cbn [dwords]. now rewrite app_nil_l, app_assoc.
 Qed.
 
-(* node kinds printed by concatenating the documents of the children *)
+Lemma dwords_unary_scan : forall cs ds first acc, length cs = length ds ->
+  dwords (print_unary_scan first cs ds acc) = dwords acc ++ flat_map dwords ds.
+Proof.
+  induction cs as [|c cs IH]; intros ds first acc H; destruct ds as [|d ds]; try discriminate H.
+  - cbn. now rewrite app_nil_r.
+  - cbn [print_unary_scan flat_map]. rewrite IH by (now inversion H).
+    rewrite dwords_cat. destruct (negb first && _); [rewrite dwords_cat; cbn [dwords space]; rewrite word_of_space; cbn|];
+      now rewrite ?app_nil_r, app_assoc.
+Qed.
+
+(* node kinds printed by concatenating the documents of the children (unary: plus a blank before a signed operand) *)
 Definition concat_kind (k : skind) : bool :=
   match k with
   | SStatement | SUnaryExpr | SCallExpr | SParenExpr | SLeaf _ | SOutside => true
@@ -78,12 +88,14 @@ Proof.
       cbn [forallb] in Hcs. apply andb_true_iff in Hcs. destruct Hcs as [Hx Hr].
       cbn [map flat_map]. rewrite (IH x Hx), (IHcs Hr). reflexivity. }
     cbn [cst_words]. rewrite <- E.
-    destruct k; try discriminate Hk; cbn [doc_of]; rewrite ?dwords_group; apply dwords_dconcat.
+    destruct k; try discriminate Hk; cbn [doc_of]; rewrite ?dwords_group;
+      try apply dwords_dconcat.
+    unfold print_unary_expr. rewrite dwords_unary_scan; [reflexivity|now rewrite map_length].
 Qed.
 
 (* "-a.b /* c */" *)
 Definition c_concat : cst :=
-  Node SStatement [Node SUnaryExpr [Tok (KOp false) "-" [] [];
+  Node SStatement [Node SUnaryExpr [Tok (KOp false true) "-" [] [];
     Node (SLeaf false) [Node (SLeaf false) [Tok KIdent "a" [] []]; Tok KOther "." [] []; Tok KIdent "b" [] [TWs; TBlock "/* c */"]]]].
 
 Lemma c_concat_ok : concat_only c_concat = true /\ cst_words c_concat = ["-"; "a"; "."; "b"; "/* c */"].
